@@ -293,14 +293,22 @@ func vfC12Sequential(e *vfEnv, r *vfResult, idx int) { //nolint:cyclop,maintidx
 	if unspecified {
 		params.Net = vfSimpleNet(newVfSwitch(), "M", "10.0.0.9", "fd00::9")
 	}
-	mux := NewUDPMuxDefault(params)
+	// one history in three runs the same operations through UniversalUDPMuxDefault, whose socket wrapper looks at every
+	// inbound STUN message (XOR-MAPPED-ADDRESS responses of known STUN servers) before the embedded mux routes it
+	universal := rng.IntN(3) == 0
+	var mux *UDPMuxDefault
+	if universal {
+		mux = NewUniversalUDPMuxDefault(UniversalUDPMuxParams{UDPConn: under, Logger: params.Logger, Net: params.Net}).UDPMuxDefault
+	} else {
+		mux = NewUDPMuxDefault(params)
+	}
 	model := &vfMuxModel{conns: map[string]*vfMConn{}, addr: map[netip.AddrPort]*vfMConn{}}
 	ufrags := []string{"uA", "uB", "uAx", ""}[:2+rng.IntN(3)]
 	var handles []*vfMuxHandle
 	var trace []string
 	nOps := 20 + rng.IntN(60)
 	viol := func(sig, msg string) {
-		r.violation(sig, msg, map[string]any{"idx": idx, "unspecified_mux": unspecified, "addrport_io": addrPort, "ops": trace})
+		r.violation(sig, msg, map[string]any{"idx": idx, "unspecified_mux": unspecified, "addrport_io": addrPort, "universal_wrapper": universal, "ops": trace})
 	}
 	realOf := func(pc net.PacketConn) *udpMuxedConn {
 		switch v := pc.(type) {
@@ -483,7 +491,13 @@ func vfC12Sequential(e *vfEnv, r *vfResult, idx int) { //nolint:cyclop,maintidx
 			var data []byte
 			kind := ""
 			var routeUfrag *string
-			switch rng.IntN(6) {
+			switch rng.IntN(7) {
+			case 6: // a success response carrying XOR-MAPPED-ADDRESS (what a STUN server sends): routed by address binding only
+				if m, err := stun.Build(stun.BindingSuccess, stun.TransactionID, &stun.XORMappedAddress{IP: net.IPv4(198, 51, 100, 7), Port: 1000 + rng.IntN(1000)}); err == nil {
+					data, kind = m.Raw, "stun-xor-mapped-response"
+				} else {
+					data, kind = []byte("\x90fallback"), "data"
+				}
 			case 0:
 				data, kind = []byte(fmt.Sprintf("\x90in-%d-%d", idx, op)), "data"
 			case 1:
@@ -567,9 +581,9 @@ func vfC12Sequential(e *vfEnv, r *vfResult, idx int) { //nolint:cyclop,maintidx
 	_ = mux.Close()
 	r.eval(1)
 	r.count("c12_ops", int64(len(trace)))
-	r.distinct(fmt.Sprintf("seq/unspec=%v/ap=%v/ufrags=%d/ops=%d/conns=%d", unspecified, addrPort, len(ufrags), len(trace)/10, len(model.all)))
+	r.distinct(fmt.Sprintf("seq/unspec=%v/ap=%v/universal=%v/ufrags=%d/ops=%d/conns=%d", unspecified, addrPort, universal, len(ufrags), len(trace)/10, len(model.all)))
 	if idx < 3 {
-		r.sample(map[string]any{"idx": idx, "kind": "sequential model-based", "unspecified_mux": unspecified, "addrport_io": addrPort, "ops_head": trace[:min(12, len(trace))]})
+		r.sample(map[string]any{"idx": idx, "kind": "sequential model-based", "unspecified_mux": unspecified, "addrport_io": addrPort, "universal_wrapper": universal, "ops_head": trace[:min(12, len(trace))]})
 	}
 }
 
@@ -591,7 +605,13 @@ func vfC12Concurrent(e *vfEnv, r *vfResult, idx int) { //nolint:cyclop
 	if rng.IntN(2) == 0 {
 		under = vfMuxSockAP{sock}
 	}
-	mux := NewUDPMuxDefault(UDPMuxParams{UDPConn: under, Logger: vfQuietLogger().NewLogger("ice")})
+	var mux *UDPMuxDefault
+	universal := rng.IntN(3) == 0
+	if universal {
+		mux = NewUniversalUDPMuxDefault(UniversalUDPMuxParams{UDPConn: under, Logger: vfQuietLogger().NewLogger("ice")}).UDPMuxDefault
+	} else {
+		mux = NewUDPMuxDefault(UDPMuxParams{UDPConn: under, Logger: vfQuietLogger().NewLogger("ice")})
+	}
 	if rng.IntN(2) == 0 {
 		vfSetYield(newVfYieldPolicy(rand.New(rand.NewPCG(e.seed+uint64(idx), 21)), map[string]int{"udpmux.worker.beforeWritePacket": 300, "udpmux.closeWatcher.beforeRemove": 500, "shared.Close.afterCancel": 300, "*": 0}, 60)) //nolint:gosec
 		defer vfSetYield(nil)
@@ -727,6 +747,169 @@ func vfC12Concurrent(e *vfEnv, r *vfResult, idx int) { //nolint:cyclop
 	r.distinct(fmt.Sprintf("conc/%v", keys))
 }
 
+// vfC12Multi: MultiUDPMuxDefault over 2-3 muxes on different listen addresses.  GetConn(ufrag, addr) must come from
+// the mux listening on addr (a datagram fed to THAT socket with the ufrag's username is read from the handle, one fed
+// to another socket is not), an address nobody listens on is refused, RemoveConnByUfrag removes the ufrag from every
+// mux and Close closes every underlying socket.
+func vfC12Multi(e *vfEnv, r *vfResult, idx int) { //nolint:cyclop
+	rng := e.rng(idx, "muxmulti")
+	n := 2 + rng.IntN(2)
+	var socks []*vfMuxSock
+	var muxes []UDPMux
+	for i := 0; i < n; i++ {
+		sk := newVfMuxSock(fmt.Sprintf("10.0.%d.9:7000", i))
+		socks = append(socks, sk)
+		muxes = append(muxes, NewUDPMuxDefault(UDPMuxParams{UDPConn: sk, Logger: vfQuietLogger().NewLogger("ice")}))
+	}
+	multi := NewMultiUDPMuxDefault(muxes...)
+	var trace []string
+	viol := func(sig, msg string) {
+		r.violation(sig, msg, map[string]any{"idx": idx, "muxes": n, "ops": trace})
+	}
+	r.eval(1)
+	if got := len(multi.GetListenAddresses()); got != n {
+		viol("multimux-listen-addresses", fmt.Sprintf("%d listen addresses reported for %d muxes", got, n))
+	}
+	if _, err := multi.GetConn("uX", vfUDPAddr("10.9.9.9:7000")); err == nil {
+		viol("multimux-conn-for-unknown-address", "GetConn succeeded for an address no mux listens on")
+	}
+	ufrags := []string{"uA", "uB", "uC"}[:1+rng.IntN(3)]
+	type hk struct {
+		uf string
+		i  int
+	}
+	handles := map[hk]net.PacketConn{}
+	removed := map[string]bool{}
+	seq := 0
+	// probe: feed one datagram for ufrag uf to socket i, then list which handles have it queued
+	probe := func(uf string, i int) map[hk]bool {
+		seq++
+		user := uf + ":r"
+		src := vfUDPAddr(fmt.Sprintf("172.16.%d.%d:%d", seq/250, 1+seq%250, 3000+seq)) // a fresh source each time: routed by username
+		data := vfStunWithUser(rng, &user)
+		if !socks[i].feed(data, src) {
+			return nil
+		}
+		got := map[hk]bool{}
+		for k, pc := range handles {
+			var real *udpMuxedConn
+			switch v := pc.(type) {
+			case *sharedAddrPortConn:
+				real, _ = v.underlying.(*udpMuxedConn)
+			case *sharedPacketConn:
+				real, _ = v.underlying.(*udpMuxedConn)
+			}
+			if real == nil {
+				continue
+			}
+			for {
+				real.mu.Lock()
+				has := real.bufTail != nil
+				real.mu.Unlock()
+				if !has {
+					break
+				}
+				buf := make([]byte, 2000)
+				m, a, err := real.ReadFrom(buf)
+				if err != nil {
+					break
+				}
+				if string(buf[:m]) == string(data) && a.String() == src.String() {
+					got[k] = true
+				} else {
+					viol("multimux-unexpected-datagram", fmt.Sprintf("handle %v read a datagram that was not the probe", k))
+				}
+			}
+		}
+
+		return got
+	}
+	for op := 0; op < 10+rng.IntN(20); op++ {
+		uf := ufrags[rng.IntN(len(ufrags))]
+		i := rng.IntN(n)
+		switch k := rng.IntN(8); {
+		case k <= 2:
+			pc, err := multi.GetConn(uf, socks[i].local)
+			trace = append(trace, fmt.Sprintf("GetConn(%s, sock%d) err=%v", uf, i, err))
+			if err != nil {
+				viol("multimux-getconn-failed", fmt.Sprintf("GetConn(%s, %s): %v", uf, socks[i].local, err))
+
+				return
+			}
+			if old, ok := handles[hk{uf, i}]; ok && !removed[uf] {
+				_ = old // a second handle on the same connection; keep the first for probing
+				_ = pc.Close()
+			} else {
+				handles[hk{uf, i}] = pc
+			}
+			delete(removed, uf)
+		case k <= 5:
+			trace = append(trace, fmt.Sprintf("probe(%s -> sock%d)", uf, i))
+			got := probe(uf, i)
+			if got == nil {
+				r.inconclusive(1)
+
+				return
+			}
+			r.eval(1)
+			_, open := handles[hk{uf, i}]
+			for g := range got {
+				if g != (hk{uf, i}) {
+					viol("multimux-misrouted", fmt.Sprintf("a datagram for %s fed to socket %d was read from the handle of (%s, socket %d)", uf, i, g.uf, g.i))
+				}
+			}
+			if open && !got[hk{uf, i}] {
+				viol("multimux-not-delivered", fmt.Sprintf("a datagram for %s fed to socket %d did not reach the handle obtained for that address", uf, i))
+			}
+		case k == 6:
+			trace = append(trace, fmt.Sprintf("RemoveConnByUfrag(%s)", uf))
+			multi.RemoveConnByUfrag(uf)
+			for hkk := range handles {
+				if hkk.uf == uf {
+					delete(handles, hkk)
+				}
+			}
+			removed[uf] = true
+			// the close watchers unregister asynchronously
+			for _, m := range muxes {
+				md := m.(*UDPMuxDefault) //nolint:forcetypeassert
+				for dl := time.Now().Add(5 * time.Second); time.Now().Before(dl); time.Sleep(5 * time.Microsecond) {
+					md.mu.Lock()
+					_, still := md.connsIPv4[uf]
+					md.mu.Unlock()
+					if !still {
+						break
+					}
+				}
+				md.mu.Lock()
+				_, still := md.connsIPv4[uf]
+				md.mu.Unlock()
+				if still {
+					viol("multimux-remove-left-ufrag", fmt.Sprintf("after RemoveConnByUfrag(%s) one of the underlying muxes still has the ufrag registered", uf))
+				}
+			}
+		}
+	}
+	_ = multi.Close()
+	for i, sk := range socks {
+		sk.mu.Lock()
+		c := sk.closes
+		sk.mu.Unlock()
+		select {
+		case <-sk.closed:
+		default:
+			c = 0
+		}
+		if c == 0 {
+			viol("multimux-close-left-socket-open", fmt.Sprintf("after MultiUDPMuxDefault.Close the socket of mux %d is still open", i))
+		}
+	}
+	for _, pc := range handles {
+		_ = pc.Close()
+	}
+	r.distinct(fmt.Sprintf("multi/muxes=%d/ufrags=%d/ops=%d", n, len(ufrags), len(trace)))
+}
+
 func TestVerifC12(t *testing.T) {
 	vfRun(t, "C12", func(e *vfEnv, r *vfResult) {
 		n := e.n(16000, 800000)
@@ -742,6 +925,9 @@ func TestVerifC12(t *testing.T) {
 		m := e.n(400, 16000)
 		for i := 0; i < m; i++ {
 			vfC12Concurrent(e, r, i)
+		}
+		for i := 0; i < e.n(800, 32000); i++ {
+			vfC12Multi(e, r, i)
 		}
 	})
 }
